@@ -45,6 +45,7 @@ PROPS = {
     'C09': dict(
         covered=['ChunkedChars::next against an adversarial byte source that hands out ANY non-empty prefix per read (every chunking, including splits inside a code point): Some(c) means c is exactly the next UTF-8 character of the remaining bytes and exactly its bytes were consumed',
                  'LiveEvents implements the Events cursor contract for both input kinds through the same pump (look-ahead served first, peek does not consume)',
+                 'deserialize_str (borrowed targets) up to the point where the text is lent: a borrowed target is handed exactly what an owned one is handed (tags, !!binary decoding through the owned path, null forms, the no_schema quoting rule), or an error; the owned fallback after it (visit_string and the conversion of the serde message) is a shim',
                  'the decoder that buffered_input_from_reader_with_limit puts in front of ChunkedChars removes a leading byte order mark and sniffs the encoding (statement fragment against the assumed encoding_rs_io builder contract)',
                  'from_slice_with_options / from_slice_multiple_with_options: on valid UTF-8 exactly the result of the string entry point on the decoded text with the same options, otherwise Error::InvalidUtf8Input (target type and Options opaque)'],
         not_covered=['equality of saphyr-parser StrInput / BufferedInput front ends; encoding_rs_io decoding itself; BOM stripping of the str / slice entry points; borrowed vs owned strings'],
